@@ -248,6 +248,29 @@ def ed_round(ctx, L, E, K, scheme, ctxlen, full, ri=0):
     for kind, cand in forged:
         ctx.count("forged:" + scheme)
         offer(kind, cand)
+    # a public key with a torsion component, A = a*B + T: signatures made with a.  Where k*T vanishes (k a multiple of the
+    # order of T) BOTH group equations hold and every RFC 8032 verifier accepts; otherwise only the cofactored one does.
+    ec_, c_ = E.L.ec, E.c
+    T_ = rng.choice([t for t in ec_.ed_small_order_points(c_) if t != (0, 1)])
+    ordT = next(j for j in range(2, 9) if ec_.ed_mul(c_, j, T_) == (0, 1))
+    pubT = E.enc(ec_.ed_add(c_, ec_.ed_mul(c_, K.a, c_.G), T_))
+    found_both = False
+    for attempt in range(48):
+        m_ = msg + bytes([attempt])
+        r_ = rng.randrange(1, Lo)
+        R_enc = E.enc(ec_.ed_mul(c_, r_, c_.G))
+        dom_, phm_ = E.setup(m_, ctxb, ph)
+        k_ = E.H(dom_ + R_enc + pubT + phm_)
+        if (k_ % Lo) % ordT and (attempt % 8 or found_both):
+            continue
+        cand = R_enc + ((r_ + (k_ % Lo) * K.a) % Lo).to_bytes(n, "little")
+        both = E.verdict(pubT, m_, cand, ctxb, ph)[0] is True
+        ctx.count("A-mixed-order:%s:%s" % (scheme, "both-equations-hold" if both else "cofactored-only"))
+        offer("A-mixed-order", cand, pub=pubT, m=m_)
+        if both:
+            if found_both:
+                break
+            found_both = True
     r3 = offer("produced", sig, o=obj, produced=True)
     ctx.check(r3[0] == r1[0], "repeat:%s:verify-outcome-differs" % scheme,
               "verify() of the produced signature changed its outcome after other candidates were shown", base)
